@@ -248,6 +248,25 @@ def props_check(cid, timeout=1500):
     return res
 
 
+def coqchk(cid, timeout=1500):
+    """Thorough tier: re-check Props/Cxx.vo and everything it depends on with Coq's independent checker;
+    `-o` lists the axioms of every loaded library (a superset of what the theorems use)."""
+    with BuildLock():
+        rc, out = sh("timeout %d coqchk -silent -o -Q . GM GM.Props.%s" % (timeout, cid), cwd=COQ, timeout=timeout + 60)
+    res = {"rc": rc, "axioms": [], "ok": False, "tail": out[-1500:]}
+    m = re.search(r"\* Axioms:(.*?)\n\s*\n\* ", out, flags=re.S)
+    if rc == 0 and m:
+        ax = [a.strip() for a in m.group(1).split() if a.strip() and a.strip() != "<none>"]
+        res["axioms"] = ax
+        short = {a.replace("Coq.Logic.", "").replace("Coq.Reals.", "") for a in ax}
+        bad = [a for a in short if a not in AXIOM_WHITELIST]
+        clean = all(("%s: <none>" % k) in " ".join(out.split()) for k in
+                    ("relying on type-in-type", "relying on unsafe (co)fixpoints", "whose positivity is assumed"))
+        res["ok"] = not bad and clean
+        res["not_whitelisted"] = bad
+    return res
+
+
 # ----------------------------------------------------------------------------- float literals
 def fl(x):
     """Coq PrimFloat literal (exact, hexadecimal) for a Python float."""
@@ -474,6 +493,13 @@ class Ctx:
         self.P = props_check(self.cid)
         if not self.P["ok"]:
             self.p_broken = True
+        elif self.tier == "thorough":
+            chk = coqchk(self.cid)
+            self.P["coqchk"] = chk
+            if not chk["ok"]:
+                self.P["ok"] = False
+                self.P["discharged"] = 0
+                self.P["log"] = "coqchk did not accept Props/%s.vo: %s" % (self.cid, chk["tail"][-600:])
         return self.P
 
     def finish(self, level="proof", rule="", extra=None, trusted=None):
@@ -499,6 +525,7 @@ class Ctx:
             "K_correspondence_testing": self.cov["K"],
             "S_oracle_testing": self.cov["S"],
             "proof_log": P.get("log", ""),
+            "coqchk": P.get("coqchk", "thorough tier only"),
             "notes": self.notes,
         }
         if extra:
